@@ -9,6 +9,7 @@ THEOREMS = {
         "Dawgs.C04.Props.literal_pipeline", "Dawgs.C04.Props.builder_pipeline", "Dawgs.C04.Props.like_escape_literal",
         "Dawgs.C04.Props.key_unescape_escape", "Dawgs.C04.Props.jsonb_key_quoting", "Dawgs.C04.Props.nested_sql_param_bound",
         "Dawgs.C04.Props.interval_literal", "Dawgs.C04.Props.comment_header_all_lines_commented", "Dawgs.C04.Props.comment_header_invisible",
+        "Dawgs.C04.Props.number_token_exact_value", "Dawgs.C04.Props.number_literal_value_round_trip", "Dawgs.C04.Props.integer_literal_value",
         "Dawgs.C04.Props.identifier_quoted", "Dawgs.C04.Props.identifier_bare", "Dawgs.C04.Props.identifier_partial",
         "Dawgs.C04.Props.identifier_fixed", "Dawgs.C04.Props.identifier_case_folded", "Dawgs.C04.Props.identifier_quote_all",
         "Dawgs.C04.Props.identifier_verbatim_unsafe_old",
@@ -23,6 +24,7 @@ THEOREMS = {
         "Dawgs.C04.Sites.sites_table_nonempty", "Dawgs.C04.Sites.unguarded_rows_named", "Dawgs.C04.Sites.outside_rows_no_finding", "Dawgs.C04.Sites.guard_calls_in_place",
         "Dawgs.C04.Sites.guard_ascii_table", "Dawgs.C04.Sites.guard_shape", "Dawgs.C04.Sites.builder_accepts_bare",
         "Dawgs.C04.Sites.builder_name_one_token", "Dawgs.C04.Sites.entry_options_exercised", "Dawgs.C04.Sites.exercised_options_exist",
+        "Dawgs.C04.Sites.format_number_calls", "Dawgs.C04.Sites.format_float_calls_present",
     ],
 }
 
@@ -128,12 +130,14 @@ SPEC = {
             "64 KiB strings, trailing backslash/quote, one name per ASCII non-identifier character and per Unicode symbol/punctuation/mark/number category; plus random fragment concatenations from splitmix64(VERIF_SEED)) x Cypher encodings (single-quoted, "
             "double-quoted, escape sequences, bare, back-ticked); each case translates the hostile query and a benign twin with the real code and the Lean "
             "lexer compares the two SQL texts; every case runs under both values of every boolean option of the entry points (FromCypher / Cypher emitter stripLiterals, "
-            "OutputBuilder MaterializeParameters and StripLiterals) and the FromCypher text must be the modelled comment header followed by the statement; a second family feeds the same texts to every name- and value-taking function of the query builders (query/v2 As, NewScope, "
+            "OutputBuilder MaterializeParameters and StripLiterals) and the FromCypher text must be the modelled comment header followed by the statement; numeric literal tokens (doubles with 8..17+ significant digits, integral doubles around 2^24 / 2^53 / 2^63, 1e21 and 1e-7, "
+            "subnormals, the largest double, exponent forms, integers up to 2^63-1) and typed numeric parameter values (float64/float32/int*/uint*, bound and inlined under "
+            "MaterializeParameters) must read back (numeric input, nearest float64 for doubles) as the value the token / the Go value denotes; a second family feeds the same texts to every name- and value-taking function of the query builders (query/v2 As, NewScope, "
             "Variable, NamedParameter, kinds, property names, SetProperties/RemoveProperties, values; query Variable, NodeProperty, values) and of the pg driver's "
             "statement builders without passing the Cypher lexer: the builder refuses the text or the emitted SQL is judged the same way (the identity property names of the "
             "driver's upsert batches are outside the quantifier: run for information only, see observations.outside_quantifier); non-trivial = both twins were translated; distinct = distinct op lines. suite c04q: every generated string "
             "through the real formatValue / formatIdentifier / NewStringLiteral / decodeCypherStringLiteral / UnescapePropertyKeyName vs the Lean functions, exact equality",
-    "expected_branches": ["opt.FromCypher.stripLiterals.true", "opt.FromCypher.stripLiterals.false", "opt.OutputBuilder.StripLiterals.true",
+    "expected_branches": ["translated.num", "numbers", "opt.FromCypher.stripLiterals.true", "opt.FromCypher.stripLiterals.false", "opt.OutputBuilder.StripLiterals.true",
                           "opt.OutputBuilder.MaterializeParameters.true","translated.lit", "translated.key", "translated.ident", "translated.kindname", "translated.param", "translated.paramlist",
                           "rejected.ident", "decode.ok", "decode.err:decode-invalid-escape", "decode.err:decode-dangling", "decode.err:decode-bad-literal"],
     "trusted_base": [
@@ -148,6 +152,9 @@ SPEC = {
         "valid UTF-8 input (Go strings with invalid UTF-8 cannot be represented as Lean strings and are not generated)",
     ],
     "assumptions": [
+        "numbers: Go's strconv shortest-digits property at 64 bits (GoShortestRoundTrips64: the digits FormatFloat(v,'f',-1,64) writes round back to v) is a NAMED ASSUMPTION of "
+        "number_literal_value_round_trip; digits/decimal point -> token -> exact value is proved; bitSize 64 at every call site is a regenerated fact (format_number_calls); the "
+        "Lean float8-input model (nearestF64Bits) is compared with Go's ParseFloat on every generated decimal text (suite c04q, op n); signs are checked through the twin only",
         "the server runs with standard_conforming_strings = on (default since PostgreSQL 9.1); with off, formatValue's quoting is unsafe (theorem pgQuote_needs_scs_on)",
         "user text is NUL-free (the property's quantifier); the real code passes NUL through unchanged — measured per site in branch 'ok excluded-nul'",
         "aliases/variables: one identifier token for every name (identifier_fixed: back-ticked symbols are written as quoted identifiers since the F9 repair, bare symbols "
